@@ -14,10 +14,17 @@ theorem C02_no_overlap (cfg : Cfg) (script : List PEntry) (evs : List Ev) :
     C02.noOverlapOk (trace cfg script evs) = true :=
   accepts_trace _ _ cfg script evs (run_top cfg script evs).1.g1.ovOk
 
+/-- At most one uncancelled fetch/offset request is outstanding at any time, and at most one refetch
+    is scheduled, on every trace. -/
+theorem C02_single_fetch (cfg : Cfg) (script : List PEntry) (evs : List Ev) :
+    C02.singleFetchOk (trace cfg script evs) = true :=
+  accepts_trace _ _ cfg script evs (run_top cfg script evs).1.sf.sfOk
+
 end Afkak.Props.C02
 
 /- OBLIGATIONS
 C02_no_overlap
+C02_single_fetch
 -/
 /- OPEN_STATEMENTS
 -/
